@@ -393,6 +393,43 @@ def direction (pBp : α) (cs : List (BoxCoord α)) : Vec α :=
       let alpha2 := clip (fun c => c.x + cauchy pBp c) (fun c => c.step - cauchy pBp c) cs Scalar.one
       cs.map fun c => cauchy pBp c + alpha2 * (c.step - cauchy pBp c)  -- dog-leg
 
+/-! #### the two repaired variants (findings F-C10-12/13: clipping by the sign of the direction; F-C10-14: Cauchy
+step scaled by `|p0|²`); which one a tree contains is regenerated from its source (`Gen/LbfgsBox.lean`) -/
+
+structure Variant where
+  clipBySign : Bool
+  cauchyScaled : Bool
+  deriving DecidableEq, Repr
+
+/-- `double bound = d_i > 0 ? u_i : l_i; alpha = std::min(alpha, std::max(0.0, (bound - pt_i)/d_i));` -/
+def clipStepSign (pt d : BoxCoord α → α) (alpha : α) (c : BoxCoord α) : α :=
+  if !c.act || Scalar.beq (d c) Scalar.zero then alpha else
+    let bound := if Scalar.zero < d c then c.u else c.l
+    Scalar.min alpha (Scalar.max Scalar.zero ((bound - pt c) / d c))
+
+def clipV (v : Variant) (pt d : BoxCoord α → α) (cs : List (BoxCoord α)) (a0 : α) : α :=
+  bif v.clipBySign then cs.foldl (clipStepSign pt d) a0 else clip pt d cs a0
+
+/-- `cauchy = p0 * (norm_sqr(p0) / inner_prod(p0,Bp0))` (scaled) or `p0 / inner_prod(p0,Bp0)`; `pp = p0ᵀp0` -/
+def cauchyV (v : Variant) (pp pBp : α) (c : BoxCoord α) : α :=
+  bif v.cauchyScaled then c.p0 * (pp / pBp) else cauchy pBp c
+
+/-- `direction` for either variant; `directionV ⟨false, false⟩ pp = direction` (`directionV_head`) -/
+def directionV (v : Variant) (pp pBp : α) (cs : List (BoxCoord α)) : Vec α :=
+  let p := cs.map (·.p0)
+  if Scalar.beq (Vec.normSqr p) Scalar.zero then p
+  else if !(cs.any stepInfeasibleAt) then cs.map (·.step)
+  else
+    let alpha := clipV v (·.x) (cauchyV v pp pBp) cs Scalar.one
+    if alpha < Scalar.one then cs.map fun c => alpha * cauchyV v pp pBp c
+    else
+      let alpha2 := clipV v (fun c => c.x + cauchyV v pp pBp c) (fun c => c.step - cauchyV v pp pBp c) cs Scalar.one
+      cs.map fun c => cauchyV v pp pBp c + alpha2 * (c.step - cauchyV v pp pBp c)
+
+def directionOfV (v : Variant) (binv bmul : Vec α → Vec α) (l u x g : Vec α) : Vec α :=
+  let p := p0 l u x g
+  directionV v (Vec.normSqr p) (Vec.dot p (bmul p)) (coords binv l u x g)
+
 /-- `getBoxConstrainedDirection(searchDirection, l, u)` at point `x` with gradient `g` -/
 def directionOf (binv bmul : Vec α → Vec α) (l u x g : Vec α) : Vec α :=
   let p := p0 l u x g
